@@ -186,6 +186,24 @@ fn apply_filler(tmpl: &str, filler: &str, out: &mut String) {
     }
 }
 
+/// the rare-context programs (every rarely used statement / built-in argument position, both
+/// leaf sets) with one gap filler applied
+pub fn rare_programs(filler: &str) -> Vec<String> {
+    let mut t = rare_templates(1);
+    t.extend(rare_leaf_templates());
+    let mut v: Vec<String> = t
+        .iter()
+        .map(|x| {
+            let mut s = String::new();
+            apply_filler(x, filler, &mut s);
+            s
+        })
+        .collect();
+    v.sort();
+    v.dedup();
+    v
+}
+
 /// statement-level programs of depth <= d (used by C15 as closed prefixes)
 pub fn programs(d: usize, with_fillers: bool) -> Vec<String> {
     let ch = chains(d);
